@@ -21,7 +21,7 @@ ASSUMPTIONS = [
 ]
 MONITORS = "store auditor after every step and inside a post-hook on HashFileDB.add (audits the receiving store after every add call)"
 REQUIRED_COUNTERS = ["inode_only_swaps", "persistent_workspace_steps", "dirs_with_several_large_files", "steps", "audits_after_step", "audits_after_add", "objects_rehashed", "dir_objects_reencoded", "op/stage-dir", "op/stage-file",
-                     "op/upload-stage", "op/add", "op/transfer", "op/save", "op/migrate", "op/gc", "op/checkout", "op/verify-rotten", "migrations_rerun", "op/pws-stage", "op/pws-edit", "op/pws-stage-only", "local_mode_checks"]
+                     "op/upload-stage", "op/add", "op/transfer", "op/save", "op/migrate", "op/gc", "staged_directory_ids_checked", "saves_over_two_data_roots", "op/checkout", "op/verify-rotten", "migrations_rerun", "op/pws-stage", "op/pws-edit", "op/pws-stage-only", "local_mode_checks"]
 
 
 def run_shard(ctx):
@@ -104,6 +104,7 @@ def run_shard(ctx):
                     cur["stores"][os.path.abspath(root)] = st
                 pool = [gen.content(rng, big=0.02) for _ in range(4)] + [b"", b"a\r\nb\r\n", b"a\nb\n"]
                 nws = [0]
+                generated = {}  # workspace path -> generated {key: bytes} (filled in below, big files included)
 
                 def new_ws(single=False):
                     nws[0] += 1
@@ -115,6 +116,7 @@ def run_shard(ctx):
                             f.write(rng.choice(pool) if rng.random() < 0.5 else gen.content(rng, big=0.03))
                         return fp
                     files, empties = gen.tree(rng, depth=rng.randrange(0, 4), fanout=3, pool_=pool, dup=0.5, odd=0.35, min_files=1)
+                    generated[p] = files
                     if rng.random() < 0.06:
                         base = rng.choice([()] + sorted({k[:-1] for k in files}))
                         for j, c in enumerate(gen.big_files(rng)):
@@ -178,6 +180,14 @@ def run_shard(ctx):
                         p = new_ws()
                         _s, _m, obj, r = env.stage_and_transfer(odb, p, algo, shallow=False)
                         rec.append(obj.hash_info.value)
+                        # the directory object's name is the digest of the canonical listing of what is really in the directory
+                        from ..oracle import H as _H, canonical_dir_oid as _cdo
+
+                        want_ = _cdo({"/".join(k_): _H(algo, v_) for k_, v_ in generated[p].items()})
+                        res.count("staged_directory_ids_checked")
+                        if obj.hash_info.value != want_:
+                            res.violation("staged-directory-named-by-another-listing", f"staged {obj.hash_info.value}; the canonical listing of the directory's real names and contents hashes to {want_}",
+                                          case=cur["case"], detail={"history": hist, "names": sorted("/".join(k_) for k_ in generated[p])[:8]})
                     elif op == "stage-file":
                         p = new_ws(single=True)
                         _s, _m, obj, r = env.stage_and_transfer(odb, p, algo)
@@ -218,6 +228,34 @@ def run_shard(ctx):
                                 ids = {env.HI(algo, o) for o in sub}
                             transfer(odb, dst["odb"], ids, shallow=shallow, jobs=rng.choice([1, 4]), cache_odb=odb)
                             rec += [dst["name"], len(ids), "shallow" if shallow else "expanded"]
+                    elif op == "save" and rng.random() < 0.35:
+                        # an index over two data roots: the second mounted at a nested key and registered FIRST (longest prefix must still win)
+                        from dvc_data.index import DataIndex as _DI, FileStorage as _FS
+
+                        p, p2 = new_ws(), new_ws()
+                        # the same relative names exist under both roots, with other bytes
+                        for k_ in sorted(generated[p])[:3]:
+                            fp_ = os.path.join(p2, *k_)
+                            if not os.path.isdir(fp_) and all(not os.path.isfile(os.path.join(p2, *k_[:i_])) for i_ in range(1, len(k_))):
+                                os.makedirs(os.path.dirname(fp_), exist_ok=True)
+                                with open(fp_, "wb") as f:
+                                    f.write(b"second root: " + generated[p][k_])
+                        mount = ("ext-%d" % _step,)
+                        both = _DI()
+                        both.storage_map.add_data(_FS(mount, fs, p2))
+                        both.storage_map.add_data(_FS((), fs, p))
+                        for k_, e_ in ibuild(p, fs).iteritems():
+                            both[k_] = e_
+                        from dvc_data.index import DataIndexEntry as _DE
+                        from dvc_data.hashfile.meta import Meta as _M
+
+                        both[mount] = _DE(key=mount, meta=_M(isdir=True))
+                        for k_, e_ in ibuild(p2, fs).iteritems():
+                            e_.key = (*mount, *k_)
+                            both[e_.key] = e_
+                        isave(imd5(both, state=odb.state), odb=odb)
+                        rec.append("two-data-roots")
+                        res.count("saves_over_two_data_roots")
                     elif op == "save":
                         p = new_ws()
                         idx = imd5(ibuild(p, fs), state=odb.state)
